@@ -264,6 +264,7 @@ class UndirectedMultigraph : private LabeledUndirectedGraph<EdgeMultiplicity> {
     void clearEdges() {
         for (VertexIndex i : *this)
             adjacencyList[i].clear();
+        edgeLabels.clear();
         edgeNumber = 0;
         totalEdgeNumber = 0;
     }
